@@ -146,4 +146,55 @@ PROPS = {
                 "cases (draw 0 / 2^32-1, correspondence only), 4 chi-square runs; distinct = distinct (op, output shape)",
         "assumptions": ["draws 0 and 2^32-1 excluded from the count oracle (known finding C11-pow-edge)"],
     },
+    "C14": {
+        "race_build": True,
+        "shrink": False,
+        "run_timeout": 3600,
+        "manifest": {
+            "text": "Lean 4: a generic theorem lockset_no_race over an interleaving semantics of mutex/RWMutex-protected "
+                    "accesses (any number of threads, any schedule), and table_guarded / table_no_race / lock_order_acyclic / "
+                    "table_covers_fields proved by kernel evaluation over the WHOLE access table of the shared fields "
+                    "(FBDNSDB.dnsdb, dbConfig.Path, DB.refCount/destroyable/dbi, IteratorPool.*, Stats.*, slidingWindow.samples, "
+                    "lockedSource.src ...: 77+ rows with the locks syntactically held) and the lock-order edges, both "
+                    "re-extracted from the current Go source by a go/ast analysis on every run (fail-closed on lock shapes it "
+                    "does not recognise). Search for a failing schedule: the harness built with -race stresses N query workers x "
+                    "partial/full reloads x stats reporting x shutdown on CDB and RocksDB; any race report, crash or stall is a "
+                    "violation with the report as replay.",
+            "note": "Partial: the extractor is syntactic and limited to this repository's Go files (cgo/RocksDB, golang-lru, miekg "
+                    "are outside); init-phase and caller-context expectations and the interface dispatch table are hand-written; "
+                    "channel hand-off is trusted as synchronising; a clean -race run is exploration, never the proof.",
+            "technique": "Lean 4 proof (generic lockset theorem + kernel-decided table regenerated from source by go/ast) + -race stress as search",
+        },
+        "trusted": COMMON_TRUSTED + [
+            "lock-region extractor /verif/extract/lockfacts.go (syntactic; hand-written init-phase / caller-context expectations)",
+            "Go race detector used only as the search for a failing schedule",
+        ],
+        "rule": "2 stress runs (cdb, rocksdb v2 keys) of 10 s (thorough 120 s) with 4-10 query workers, a reloader alternating "
+                "partial and full reloads over pre-built generations, backend-stats and Stats.Get reporters, then Close, under "
+                "the Go race detector; distinct = backend",
+        "assumptions": [],
+    },
+    "C18": {
+        "manifest": {
+            "text": "Lean 4 theorems over a model of svcb.ParamList (FromText with its seven value marshallers, ToWire, ToText) and "
+                    "an independent RFC 9460 wire reader: keys_strictly_increasing (unconditional) and _wire, "
+                    "decode_recovers_declared_partial (the RFC reader recovers exactly the declared keys and values for valid "
+                    "declarations without dropped segments), mandatory_rejects_partial; the full-strength statements are kept as "
+                    "defs with proved negations from concrete witnesses (known findings). Correspondence: the real "
+                    "FromText/ToWire/ToText output-for-output (wire bytes, text, error class); miekg/dns unpack/repack of a full "
+                    "HTTPS RR as a second independent decoder; all key orders.",
+            "note": "Partial: text_wire_idempotent is oracle-checked only (its positive theorem is not proved; its negation for "
+                    "IPv4-mapped ipv6hint is); Go library calls (ParseIP, ParseUint, base64, Split, SliceStable) are Lean models "
+                    "validated on the generated grammar; values >= 2^16 bytes are excluded by hypothesis.",
+        },
+        "trusted": COMMON_TRUSTED + [
+            "net.ParseIP / IP.String / strconv.ParseUint / base64 / bytes.Split / sort.SliceStable modelled in Lean, validated by correspondence",
+            "miekg/dns SVCB unpacking used as a second decoder in the harness",
+        ],
+        "rule": "all 3-subsets of the seven keys in every order (thorough: all 7! orders twice) x random values over boundary "
+                "pools (ports 0/1/65535, 8 IPv4 / 17 IPv6 text forms, alpn ids 1..255 bytes, ech 1..70 bytes, quoting modes), "
+                "invalid mandatory lists, malformed stream; inputs of the recorded defect classes excluded; distinct = distinct "
+                "(op, output shape)",
+        "assumptions": ["parameter values shorter than 2^16 bytes"],
+    },
 }
